@@ -130,3 +130,228 @@ DEFAULT = {
     'sgr_kind': summ_sgr_kind,
     'AnsiString.set_ansi_str': summ_set_ansi_str,
 }
+
+
+# =============================================================================================
+# Abstract (client-level) contracts: active in groups that declare use=('ABS',)
+from . import abstract as ab  # noqa: E402
+from . import builtins_model as bm  # noqa: E402
+
+
+def _operand(interp, value):
+    """(text, table term) of a right operand / copy source, or None when it is not abstractly known"""
+    if isinstance(value, PObj) and value.cls == 'AnsiStr':
+        value = value.attrs['_s']
+    if isinstance(value, PObj) and value.cls == 'AnsiString':
+        t = ab.table_term(value)
+        if t is None:
+            return None
+        return value.attrs['_s'], t
+    return None
+
+
+def abs_getitem(interp, func, args, kwargs):
+    """Contract of AnsiString.__getitem__ (established by groups SL, G2, G2e): IndexError exactly for an out of
+    range integer, ValueError for a step other than 1, TypeError for other index types; otherwise a fresh value
+    whose text is the selected text and whose table is tbl_slice(t, lo, hi)."""
+    self_, val = args[0], args[1]
+    if not isinstance(self_, PObj) or ab.table_term(self_) is None or not isinstance(self_.attrs['_fmts'], ab.AbsTbl):
+        return NotImplemented
+    c = ctx()
+    ab.install(c)
+    t = ab.table_term(self_)
+    text = self_.attrs['_s']
+    n = sym.s_len(text)
+    if isinstance(val, sym.PSlice):
+        if not bm.step_is_one(val.step):
+            raise PyExc('ValueError', 'Step other than 1 not supported')
+        lo, hi = sym.slice_bounds(val.start, val.stop, n)
+    elif sym.is_int(val) and not isinstance(val, bool):
+        if not c.truth(sym.b_and(sym.i_cmp('>=', val, sym.i_neg(n)), sym.i_cmp('<', val, n))):
+            raise PyExc('IndexError', 'string index out of range', True)
+        lo = sym.i_add(val, n) if c.truth(sym.i_cmp('<', val, 0)) else val
+        hi = sym.i_add(lo, 1)
+    else:
+        raise PyExc('TypeError', 'Invalid type for __getitem__')
+    new = PObj('AnsiString', {'_fmts': ab.AbsTbl(ab.T_SLICE(t, sym.Z(lo), sym.Z(hi))),
+                              '_s': sym.s_slice(text, lo, hi)})
+    return new
+
+
+def abs_iadd(interp, func, args, kwargs):
+    """Contract of AnsiString.__iadd__ (group A1): text concatenated, table tbl_cat(ta, len_a, tb), returns self,
+    right operand untouched; TypeError for operands that are neither str nor AnsiString."""
+    self_, value = args[0], args[1]
+    if not isinstance(self_, PObj):
+        return NotImplemented
+    c = ctx()
+    ta = ab.table_term(self_)
+    if ta is None:
+        return NotImplemented
+    if sym.is_str(value):
+        cond = esc_free(value)
+        if cond is not True:
+            if sym.s_chars(value) is not None:
+                return NotImplemented  # concrete-length text: run the real code (it parses the text)
+            ob = c.prove('pre:__iadd__:str-operand-has-no-ESC', cond)
+            if ob.status != 'discharged':
+                raise PreconditionFailed('__iadd__')
+        vtext, tb = value, ab.EMPTY
+    else:
+        op = _operand(interp, value)
+        if op is None:
+            if isinstance(value, PObj) and value.cls in ('AnsiString', 'AnsiStr'):
+                return NotImplemented
+            raise PyExc('TypeError', 'value is invalid type')
+        vtext, tb = op
+    if not isinstance(self_.attrs['_fmts'], ab.AbsTbl) and tb is ab.EMPTY and ta is ab.EMPTY:
+        pass
+    ab.install(c)
+    na = sym.s_len(self_.attrs['_s'])
+    self_.attrs['_s'] = sym.s_concat(self_.attrs['_s'], vtext)
+    self_.attrs['_fmts'] = ab.AbsTbl(ab.T_CAT(ta, sym.Z(na), tb))
+    return self_
+
+
+def abs_init(interp, func, args, kwargs):
+    """Contract of the copying constructor AnsiString(src, *settings) for an AnsiString / AnsiStr source (group V5):
+    same text, structurally equal table held in new containers; then apply_formatting(settings) if any."""
+    self_ = args[0]
+    src = args[1] if len(args) > 1 else kwargs.get('s', '')
+    settings = tuple(args[2:])
+    op = _operand(interp, src) if isinstance(src, PObj) else None
+    if op is None:
+        return NotImplemented
+    if isinstance(src, PObj) and src.cls == 'AnsiStr':
+        src = src.attrs['_s']
+    if not isinstance(src.attrs['_fmts'], ab.AbsTbl):
+        return NotImplemented
+    c = ctx()
+    ab.install(c)
+    text, t = op
+    self_.attrs['_s'] = text
+    self_.attrs['_fmts'] = ab.AbsTbl(t)
+    if settings:
+        m = interp.p.find_member('AnsiString', 'apply_formatting')
+        interp.invoke(m, [self_, settings], {})
+    return None
+
+
+def _norm_range(self_, start, end):
+    n = sym.s_len(self_.attrs['_s'])
+    lo, hi = sym.slice_bounds(start, end, n)
+    return n, lo, hi
+
+
+def abs_apply(interp, func, args, kwargs):
+    """Contract of apply_formatting (groups SL, F3) on an abstract table, for settings that scrub without error:
+    text unchanged; no-op for empty settings or an empty range; otherwise table tbl_apply(...)."""
+    names = ['self', 'settings', 'start', 'end', 'topmost']
+    vals = dict(zip(names, args))
+    vals.update(kwargs)
+    self_ = vals['self']
+    if not ab.is_abstract(self_):
+        return NotImplemented
+    c = ctx()
+    ab.install(c)
+    settings = vals['settings']
+    start = vals.get('start', 0)
+    end = vals.get('end', None)
+    topmost = vals.get('topmost', True)
+    n, lo, hi = _norm_range(self_, start, end)
+    if not interp.truth(settings):
+        return None
+    if c.truth(sym.i_cmp('<=', hi, lo)):
+        return None
+    t = ab.table_term(self_)
+    self_.attrs['_fmts'] = ab.AbsTbl(ab.T_APPLY(t, sym.Z(n), ab.any_term(settings), sym.Z(lo), sym.Z(hi), sym.Z(topmost)
+                                                if not isinstance(topmost, bool) else z3.BoolVal(topmost)))
+    return None
+
+
+def abs_remove(interp, func, args, kwargs):
+    """Contract of remove_formatting (groups SL, M2) on an abstract table."""
+    names = ['self', 'settings', 'start', 'end']
+    vals = dict(zip(names, args))
+    vals.update(kwargs)
+    self_ = vals['self']
+    if not ab.is_abstract(self_):
+        return NotImplemented
+    c = ctx()
+    ab.install(c)
+    settings = vals.get('settings', None)
+    start = vals.get('start', 0)
+    end = vals.get('end', None)
+    n, lo, hi = _norm_range(self_, start, end)
+    if settings is not None and not interp.truth(settings):
+        return None
+    if c.truth(sym.i_cmp('<=', hi, lo)):
+        return None
+    t = ab.table_term(self_)
+    self_.attrs['_fmts'] = ab.AbsTbl(ab.T_REMOVE(t, sym.Z(n), ab.any_term(settings), sym.Z(lo), sym.Z(hi)))
+    return None
+
+
+RENDER = z3.Function('render', ab.TBL, bm.STRSORT, ab.ANY, sym.BoolSort, sym.BoolSort, sym.BoolSort, bm.STRSORT)
+
+
+def abs_to_str(interp, func, args, kwargs):
+    """to_str on an abstract value: an uninterpreted function of the table, the text and the arguments
+    (rendering itself is the subject of C01; here only *which* value is rendered with *which* arguments matters)."""
+    names = ['self', 'format_spec', 'optimize', 'reset_start', 'reset_end']
+    vals = dict(zip(names, args))
+    vals.update(kwargs)
+    self_ = vals['self']
+    if not ab.is_abstract(self_):
+        return NotImplemented
+    t = ab.table_term(self_)
+
+    def bz(v, d):
+        v = vals.get(v, d)
+        return z3.BoolVal(v) if isinstance(v, bool) else sym.Z(v)
+    r = RENDER(t, bm.str_term(self_.attrs['_s']), ab.any_term(vals.get('format_spec', None)), bz('optimize', True),
+               bz('reset_start', False), bz('reset_end', True))
+    return bm.UStr(r)
+
+
+def twin_view_texts(interp, func, args, kwargs):
+    v, i = args
+    if not isinstance(v, PObj) or not isinstance(v.attrs.get('_fmts'), ab.AbsTbl):
+        return NotImplemented
+    c = ctx()
+    n = sym.s_len(v.attrs['_s'])
+    if c.truth(sym.b_and(sym.i_cmp('>=', i, 0), sym.i_cmp('<', i, n))):
+        return ab.AbsVal(ab.VT(v.attrs['_fmts'].term, sym.Z(i)))
+    return ab.AbsVal(ab.NIL)
+
+
+def twin_wf_ok(interp, func, args, kwargs):
+    v = args[0]
+    if not isinstance(v, PObj) or not isinstance(v.attrs.get('_fmts'), ab.AbsTbl):
+        return NotImplemented
+    return ab.WFP(v.attrs['_fmts'].term, sym.Z(sym.s_len(v.attrs['_s'])))
+
+
+def twin_same_value(interp, func, args, kwargs):
+    """same_value(v, w): equal text and structurally equal table"""
+    v, w = args
+    tv, tw = ab.table_term(v), ab.table_term(w)
+    if tv is None or tw is None or not (isinstance(v.attrs['_fmts'], ab.AbsTbl) or isinstance(w.attrs['_fmts'], ab.AbsTbl)):
+        return NotImplemented
+    r = sym.s_eq(v.attrs['_s'], w.attrs['_s'])
+    if isinstance(r, sym.Approx):
+        r = r.cond
+    return sym.b_and(r, tv == tw)
+
+
+MODULAR['ABS'] = {
+    'AnsiString.__getitem__': abs_getitem,
+    'AnsiString.__iadd__': abs_iadd,
+    'AnsiString.__init__': abs_init,
+    'AnsiString.apply_formatting': abs_apply,
+    'AnsiString.remove_formatting': abs_remove,
+    'AnsiString.to_str': abs_to_str,
+    'view_texts': twin_view_texts,
+    'wf_ok': twin_wf_ok,
+    'same_value': twin_same_value,
+}
